@@ -60,6 +60,8 @@ partial def pItem : P Item := fun cs =>
   | 't' :: r => do let (_, r) ← pChar '(' r; let (b, r) ← pHexBytes r; let (_, r) ← pChar ')' r; some (.text b, r)
   | 'B' :: '[' :: r => do let (cs, r) ← pChunks r []; some (.bytesI cs, r)
   | 'T' :: '[' :: r => do let (cs, r) ← pChunks r []; some (.textI cs, r)
+  | 'A' :: '+' :: '[' :: r => do let (xs, r) ← pList r []; some (.array xs, r)   -- spare capacity: same value
+  | 'M' :: '+' :: '[' :: r => do let (xs, r) ← pPairs r []; some (.map xs, r)
   | 'A' :: '[' :: r => do let (xs, r) ← pList r []; some (.array xs, r)
   | 'a' :: '[' :: r => do let (xs, r) ← pList r []; some (.arrayI xs, r)
   | 'M' :: '[' :: r => do let (xs, r) ← pPairs r []; some (.map xs, r)
@@ -81,12 +83,20 @@ where
     match cs with
     | ']' :: r => some (acc.reverse, r)
     | ',' :: r => pList r acc
-    | _ => do let (x, r) ← pItem cs; pList r (x :: acc)
+    | _ => do
+      let (x, r) ← pItem cs
+      match r with
+      | '*' :: r => pList r (x :: x :: acc)     -- the same item pushed twice (shared in the C heap)
+      | _ => pList r (x :: acc)
   pPairs (cs : List Char) (acc : List (Item × Item)) : Option (List (Item × Item) × List Char) :=
     match cs with
     | ']' :: r => some (acc.reverse, r)
     | ',' :: r => pPairs r acc
-    | _ => do let (k, r) ← pItem cs; let (_, r) ← pChar ':' r; let (v, r) ← pItem r; pPairs r ((k, v) :: acc)
+    | _ => do
+      let (k, r) ← pItem cs; let (_, r) ← pChar ':' r; let (v, r) ← pItem r
+      match r with
+      | '*' :: r => pPairs r ((k, v) :: (k, v) :: acc)
+      | _ => pPairs r ((k, v) :: acc)
 
 def parseTree (s : String) : Option Item :=
   match pItem s.toList with
